@@ -13,6 +13,17 @@ E2 = "explicit-state search over operation histories of the real objects against
 E3 = "bounded-exhaustive input/configuration enumeration against a reference model (depth-1 model checking)"
 
 CHECKS = {
+    "C02": dict(
+        engine="E3-enum",
+        category="exploration",
+        technique=E3,
+        text="Full product verb x seqn x legal address shapes x device-type pairs x codes x every payload length 1..48 x fills (+ sweeps of all 64 "
+        "device types per position, all known codes, all 256 seqn): each frame is parsed as Command, as Packet under 4 RSSI forms and 4 annotation "
+        "forms, via repr, and via every applicable CLI short form, and printed back; a slice x 8 timestamps (usec edge cases, leap day, 2000, 2099) "
+        "is written by the library's own packet logger to a real file and replayed by the real FileTransport on the virtual loop.",
+        design_ref="4/C02",
+        note="Frames rejected with PacketInvalid are outside this property (C01 covers totality); TZ=UTC for the logger's local-time formatting.",
+    ),
     "C03": dict(
         engine="E3-enum",
         category="exploration",
